@@ -31,6 +31,7 @@ def shards(tier, seed):
             out.append({"id": "seq-%s-%d" % (t, i), "kind": "seq", "transport": t, "n": nseq})
         out.append({"id": "facade-" + t, "kind": "facade", "transport": t,
                     "statuses": "some" if tier == "quick" else "all"})
+        out.append({"id": "facade-sessions-" + t, "kind": "facade_sessions", "transport": t, "n": 60 if tier == "quick" else 2500})
     return out
 
 
@@ -79,6 +80,12 @@ class Env:
         key = key if key is not None else rng.randrange(16)
         asc = rng.choice([0x00, 0x04, 0x20, 0x24, 0x29, 0x3A, 0x44, 0x5D, 0x7F, 0x80, 0xFF, rng.getrandbits(8)])
         ascq = self.counter & 0xFF
+        if rc >= 0x72 and n is None and rng.random() < 0.5:
+            # descriptor format with real descriptors, among them forwarded sense data of another command
+            kinds = [rng.choice(ref.DESCRIPTOR_KINDS) for _ in range(rng.randint(1, 3))]
+            if rng.random() < 0.5:
+                kinds.append("forwarded")
+            return ref.build_with_descriptors(rc, key, asc, ascq, [ref.descriptor(k, rng) for k in kinds])
         n = n if n is not None else rng.choice([8, 14, 18, 18, 32, 96, 252])
         if rc < 0x72:
             n = max(n, 14)
@@ -196,6 +203,37 @@ def run(shard, ctx):
                     ctx.count("binding_calls")
                     judge_call(ctx, env, "scsi_execute" if via else "execute", status, sense, raw, outcome, exc, cmd,
                                {"cmd": ck, "class": type(cmd).__name__, "opcode": cmd.cdb[0]})
+        # the error must also leave a `with` block of the device and of the facade
+        from vmon import harness
+        from vmon.sim import install as _inst
+
+        for status in range(256):
+            for how in ("with_device", "with_facade"):
+                if t == "sgio":
+                    dev = _inst.sgio_device()[0]
+                else:
+                    dev = _inst.iscsi_device()
+                sense = env.unique_sense(rng) if status == 2 else None
+                env.plan = [(status, sense)]
+                cmd = fresh_cmd(env, rng, "tur")
+                try:
+                    if how == "with_device":
+                        with dev as d:
+                            d.execute(cmd)
+                    else:
+                        s = harness.make_facade(dev)
+                        with s as s2:
+                            s2.execute(cmd)
+                    outcome, exc = "returned", None
+                except Exception as e:  # noqa: BLE001
+                    outcome, exc = "raised", e
+                ctx.case((t, how, status), status != 0)
+                ctx.count("binding_calls")
+                old_dev, env.dev = env.dev, dev
+                try:
+                    judge_call(ctx, env, how, status, sense, False, outcome, exc, cmd, {"cmd": "tur"})
+                finally:
+                    env.dev = old_dev
     elif kind == "sense":
         for rc in (0x70, 0x71, 0x72, 0x73):
             for key in range(16):
@@ -222,6 +260,8 @@ def run(shard, ctx):
         run_sequences(shard, ctx, env, rng)
     elif kind == "facade":
         run_facade(shard, ctx, env, rng)
+    elif kind == "facade_sessions":
+        run_facade_sessions(shard, ctx, env, rng)
     # no binding call may have been skipped
     if env.plan:
         ctx.fail("C07:%s.command_never_reached_binding" % t, "planned status never consumed", {"left": len(env.plan)})
@@ -324,6 +364,52 @@ def facade_calls(env, rng):
         seen.add(label)
         out.append((label, c, a))
     return out
+
+
+def run_facade_sessions(shard, ctx, env, rng):
+    """one facade object kept over 5..30 calls of mixed methods with injected statuses: what happened to an earlier call
+    (a failed ATA pass-through, a CHECK CONDITION, a busy target) must not change how a later failure is reported"""
+    import pyscsi.pyscsi.scsi_enum_command as E
+
+    from vmon import harness
+    from vmon.spec import dataout as DO
+
+    t = env.transport
+    methods = facade_calls(env, rng)
+    ata = [m for m in methods if m[1].xfer == "ata"]
+    for sess in range(shard["n"]):
+        s = harness.make_facade(env.dev)
+        hist = []
+        for i in range(rng.randint(5, 30)):
+            label, c, a = rng.choice(ata) if rng.random() < 0.25 else rng.choice(methods)
+            setname = "sbc" if "sbc" in c.sets else c.sets[0]
+            env.dev.opcodes = getattr(E, setname)
+            r = rng.random()
+            status = 0 if r < 0.45 else 2 if r < 0.8 else rng.choice(list(NAMED) + [0x01, 0xFF, 0x10])
+            sense = env.unique_sense(rng) if status == 2 else None
+            env.plan = [(status, sense)]
+            before = len(env.injected)
+            try:
+                ret = harness.facade_call(c, s, DO.fresh(a) if c.custom else dict(a))
+                outcome, exc = "returned", None
+            except Exception as e:  # noqa: BLE001
+                ret, outcome, exc = None, "raised", e
+            reached = len(env.injected) - before
+            hist.append({"method": label, "status": status, "outcome": outcome})
+            ctx.count("binding_calls")
+            if reached != 1:
+                env.plan = []
+                if reached == 0:
+                    continue  # refused before sending (e.g. decode of arguments): not a status matter
+                ctx.fail("C07:%s.facade_session.binding_reached_%d_times" % (t, reached), "%s reached the binding %d times" % (label, reached), {"history": hist[-6:]})
+                continue
+            if status == 0 and outcome == "raised":
+                continue  # decoding an empty buffer after GOOD: C04/C13's business
+            raw = c.xfer == "ata"
+            judge_call(ctx, env, "facade_session", status, sense, raw, outcome, exc, ret, {"method": label, "position": i, "history": hist[-6:]})
+        ctx.case((t, "facade-session", tuple((h["method"], h["status"]) for h in hist)), True,
+                 sample={"transport": t, "history": hist[:8]} if ctx.want_sample() else None)
+        ctx.count("facade_sessions")
 
 
 def run_facade(shard, ctx, env, rng):
